@@ -13,6 +13,7 @@ namespace stack of dtmc/refsem.py.
 """
 
 import itertools
+import re
 
 from .. import ast
 from .. import refsem
@@ -130,6 +131,23 @@ def cases(tier):
                         yield {'fam': 'src', 'sources': list(sub),
                                'shape': shape, 'kind': kind, 'form': form,
                                'syntax': SYNTAXES[idx % 3]}
+    # the same with a name that is also the name of a builtin the
+    # expression language offers (as _.max, _.str, ...): an ordinary name
+    for name in ('max', 'str', 'len'):
+        for k in range(1, 7):
+            for sub in itertools.combinations(SOURCES, k):
+                for kind in ('plain', 'callable'):
+                    for form in ('var', 'callexpr', 'varexprcall', 'ifvar',
+                                 'exprlambda', 'exprgen'):
+                        if form == 'varexprcall' and kind != 'callable':
+                            continue
+                        if form.startswith('expr') and kind != 'plain':
+                            continue
+                        idx += 1
+                        yield {'fam': 'src', 'sources': list(sub),
+                               'shape': 'single' if 'client' in sub
+                               else 'none', 'kind': kind, 'form': form,
+                               'name': name, 'syntax': SYNTAXES[idx % 3]}
     depth = 3 if tier == 'quick' else 4
     levels = [(b, r) for b in BINDERS for r in (0, 1)]
     # two sibling blocks: what the first one bound (or cached) is gone in
@@ -216,7 +234,29 @@ def build_src(case):
     if shape.startswith('falsy'):
         parts['client_kind'] = 'fobj'
     nodes = [T('[')] + lookup_nodes(case['form']) + [T(']')]
+    if case.get('name'):
+        nodes = rename(nodes, case['name'])
+        for part in parts.values():
+            if isinstance(part, dict) and 'n' in part:
+                part[case['name']] = part.pop('n')
+        parts['clients'] = [rename_keys(c, case['name'])
+                            for c in parts['clients']]
     return nodes, parts
+
+
+def rename_keys(d, name):
+    return {(name if k == 'n' else k): v for k, v in d.items()}
+
+
+def rename(node, name):
+    """the probe name n written as another name, in tags and expressions"""
+    if isinstance(node, list):
+        if len(node) == 2 and node[0] == 'n' and node[1] == 'n':
+            return ['n', name]
+        if len(node) == 2 and node[0] == 'e' and isinstance(node[1], str):
+            return ['e', re.sub(r'\bn\b', name, node[1])]
+        return [rename(x, name) for x in node]
+    return node
 
 
 def observe_src_impl(nodes, parts, syntax, single_client):
